@@ -69,44 +69,53 @@ proof! {
 	}
 }
 
-proof! {
-	fn dma_deterministic() {
-		// two evaluations on the same window agree (guards against hidden global state)
-		env::set_chain_type(env::chain_type_of(CT));
-		let height: u64 = nd::any();
-		nd::assume(height < (1 << 40));
-		let w = window();
-		let r1 = consensus::next_dma_difficulty(height, w.clone());
-		let r2 = consensus::next_dma_difficulty(height, w);
-		check!(r1.difficulty == r2.difficulty && r1.secondary_scaling == r2.secondary_scaling, "deterministic");
-		core::mem::forget(r1);
-		core::mem::forget(r2);
+#[cfg(kani)]
+pub mod tag {
+	use grin_core::consensus::HeaderDifficultyInfo;
+	use grin_core::pow::Difficulty;
+	pub static mut WHICH: u8 = 0;
+	pub fn dma<T: IntoIterator<Item = HeaderDifficultyInfo>>(_h: u64, _c: T) -> HeaderDifficultyInfo {
+		unsafe { WHICH = 1; }
+		HeaderDifficultyInfo::new(None, 0, Difficulty::from_num(1), 0, false)
+	}
+	pub fn wtema<T: IntoIterator<Item = HeaderDifficultyInfo>>(_h: u64, _c: T) -> HeaderDifficultyInfo {
+		unsafe { WHICH = 2; }
+		HeaderDifficultyInfo::new(None, 0, Difficulty::from_num(1), 0, false)
 	}
 }
 
 proof! {
+	[]
+	#[cfg_attr(kani, kani::stub(grin_core::consensus::next_dma_difficulty, tag::dma))]
+	#[cfg_attr(kani, kani::stub(grin_core::consensus::next_wtema_difficulty, tag::wtema))]
 	fn next_difficulty_dispatch() {
-		// next_difficulty picks DMA before header version 5 and WTEMA from it on
-		env::set_chain_type(env::chain_type_of(CT));
-		let height: u64 = nd::any();
-		nd::assume(height < (1 << 40));
-		let ts: u64 = nd::any();
-		nd::assume(ts < (1 << 40) && ts >= (1 << 30));
-		let gap: u64 = nd::any();
-		nd::assume(gap >= 1 && gap < (1 << 20));
-		let a = entry(ts);
-		let b = entry(ts - gap);
-		let r = consensus::next_difficulty(height, vec![a.clone(), b.clone()]);
-		if consensus::header_version(height) >= HeaderVersion(5) {
-			let w = consensus::next_wtema_difficulty(height, vec![a, b]);
-			check!(r.difficulty == w.difficulty && r.secondary_scaling == 0, "WTEMA era: wtema result, no secondary scaling");
-			cover!(true, "wtema era");
-		} else {
-			let d = consensus::next_dma_difficulty(height, vec![a, b]);
-			check!(r.difficulty == d.difficulty && r.secondary_scaling == d.secondary_scaling, "DMA era: dma result");
-			cover!(true, "dma era");
+		// next_difficulty(height, _) uses DMA while the header at `height` is scheduled below
+		// version 5 and WTEMA from the first version-5 height on, on every chain type
+		#[cfg(kani)]
+		{
+			let ct = env::any_chain_type();
+			env::set_chain_type(ct);
+			let height: u64 = nd::any();
+			// below the u16 wrap of the era counter (recorded finding, see header_version_u16_wrap)
+			let wrap = match ct {
+				ChainTypes::Mainnet | ChainTypes::Testnet => 1u64 << 32,
+				_ => 3 * 65534,
+			};
+			nd::assume(height < wrap);
+			let r = consensus::next_difficulty(height, Vec::<HeaderDifficultyInfo>::new());
+			core::mem::forget(r);
+			let which = unsafe { tag::WHICH };
+			// first version-5 height, restated: 4 eras of half a year on mainnet, the listed
+			// fourth fork on testnet, 4 intervals of 3 on the testing chains
+			let first_v5 = match ct {
+				ChainTypes::Mainnet => 4 * 262_080,
+				ChainTypes::Testnet => 642_240,
+				_ => 12,
+			};
+			check!(which == if height >= first_v5 { 2 } else { 1 }, "DMA below the first version-5 height, WTEMA from it on");
+			cover!(height == first_v5, "exactly at the fork height");
+			cover!(height + 1 == first_v5, "last DMA height");
 		}
-		core::mem::forget(r);
 	}
 }
 
@@ -259,7 +268,6 @@ proof! {
 
 pub const HARNESSES: &[(&str, fn())] = &[
 	("c04::dma_total_floor", dma_total_floor),
-	("c04::dma_deterministic", dma_deterministic),
 	("c04::next_difficulty_dispatch", next_difficulty_dispatch),
 	("c04::wtema_total_floor", wtema_total_floor),
 	("c04::wtema_direction", wtema_direction),
